@@ -2,8 +2,11 @@
 
 Engine H.  For each small acyclic model every history over the alphabet
   set(input, v)   for every input and every value v   (by address, and by
-                  defined name where the model has one)
-  evaluate(c)     for every cell c of the model
+                  defined name where the model has one); through an
+                  Evaluator at even history positions, directly through
+                  Model.set_cell_value at odd ones
+  evaluate(c)     for every cell c of the model, by one of two evaluators
+                  sharing the model (alternating with the history position)
 is executed on a FRESH real model (prefix replayed), unmerged up to a depth
 bound; the thorough tier additionally runs a breadth-first search that merges
 states with equal object-graph fingerprints until no new state appears (the
@@ -29,7 +32,7 @@ from ..gen import models
 PROPERTY = 'C04'
 LEVEL = 'model_checking'
 ENGINE = 'xlmc-H'
-RULE = ('all histories over set(input,v)/evaluate(cell) on 11 small acyclic '
+RULE = ('all histories over set(input,v)/evaluate(cell) on 13 small acyclic '
         'models, executed on the real library (fresh model per history, '
         'prefix replayed), oracle on the last step; non-trivial = the '
         'history contains an evaluate that follows a set of one of its '
@@ -37,7 +40,7 @@ RULE = ('all histories over set(input,v)/evaluate(cell) on 11 small acyclic '
         'result would be observable)')
 BOUNDS = {
     'quick': {'unmerged_depth': 4, 'unmerged_depth_named_model': 3,
-              'merged': 'depth 7'},
+              'unmerged_depth_alphabets_over_9_ops': 3, 'merged': 'depth 5'},
     'thorough': {'unmerged_depth': 5, 'unmerged_depth_named_model': 4,
                  'merged': 'fixpoint (complete reachable state space)'},
 }
@@ -50,7 +53,7 @@ TECHNIQUE = ('explicit-state exploration of set/evaluate histories on the '
              'fingerprint-merged BFS to the reachable-state fixpoint) with a '
              'differential fresh-model oracle')
 LEVEL_TEXT = ('Every history of set_cell_value/evaluate calls up to the depth '
-              'bound on 11 dependency shapes (chain, diamond, range of inputs, lazy branch, lookup, '
+              'bound on 13 dependency shapes (chain, diamond, range of inputs, lazy branch, lookup, '
               'range of formulas, cross-sheet, text, defined name) runs on '
               'the real library and is compared with a freshly built model '
               'and with reference arithmetic; a merged search covers the '
@@ -58,12 +61,12 @@ LEVEL_TEXT = ('Every history of set_cell_value/evaluate calls up to the depth '
 LEVEL_NOTE = ('Every transition is an execution of the implementation, so '
               'there is no model/implementation gap; trusted: the fingerprint '
               'covers every attribute a later operation can read (generic '
-              'walk), the per-model reference arithmetic.  Bounded: 11 models '
+              'walk), the per-model reference arithmetic.  Bounded: 13 models '
               'of <= 7 cells, two alternative values per input.')
 
 DEPTH = {'quick': 4, 'thorough': 5}
 DEPTH_NAMED = {'quick': 3, 'thorough': 4}
-MERGED_DEPTH = {'quick': 7, 'thorough': None}     # None = to the fixpoint
+MERGED_DEPTH = {'quick': 5, 'thorough': None}     # None = to the fixpoint
 
 
 def alphabet(spec):
@@ -80,31 +83,42 @@ def alphabet(spec):
 
 
 class Run:
-    """A fresh model with a history applied to it."""
+    """A fresh model with a history applied to it.
+
+    Two evaluators share the model; operations at odd history positions use
+    the second one, and a set at an odd position goes straight through
+    ``Model.set_cell_value`` - the statement speaks of calls "on a model",
+    whichever object carries them."""
 
     def __init__(self, spec):
         self.spec = spec
         self.model = models.build(spec, lib)
         self.ev = lib.Evaluator(self.model)
+        self.ev2 = lib.Evaluator(self.model)
         self.inputs = spec.initial_inputs()
         self.last_obs = None
+        self.pos = 0
 
     def apply(self, op):
         kind = op[0]
+        odd = self.pos % 2 == 1
+        self.pos += 1
+        ev = self.ev2 if odd else self.ev
+        setter = self.model.set_cell_value if odd else ev.set_cell_value
         if kind == 'set':
-            self.last_obs = lib.observe(self.ev.set_cell_value, op[1], op[2])
+            self.last_obs = lib.observe(setter, op[1], op[2])
             self.inputs[op[1]] = op[2]
         elif kind == 'setn':
-            self.last_obs = lib.observe(self.ev.set_cell_value, op[1], op[2])
+            self.last_obs = lib.observe(setter, op[1], op[2])
             self.inputs[self.spec.names[op[1]]] = op[2]
         elif kind == 'eval':
-            self.last_obs = lib.observe(self.ev.evaluate, op[1])
+            self.last_obs = lib.observe(ev.evaluate, op[1])
         else:
             raise AssertionError(op)
         return self.last_obs
 
     def fp(self):
-        return explore.fingerprint(self.model, self.ev)
+        return explore.fingerprint(self.model, self.ev, self.ev2)
 
 
 def opname(op):
@@ -147,7 +161,7 @@ def check_last(spec, hist, ctx, count_from=0):
         c = op[1]
         want = models.obs(spec.reference(run.inputs)[c], lib)
         tags = ['op:eval', 'model:' + spec.name]
-        if got != want:
+        if not models.agrees(got, want):
             ctx.fail(key + '#value', tags + ['oracle:reference'], inputs, want,
                      got, nontriv)
         else:
@@ -157,10 +171,11 @@ def check_last(spec, hist, ctx, count_from=0):
         want2 = lib.eval_addr(fresh, c)
         ctx.check(key + '#fresh', got, want2, tags + ['oracle:fresh-model'],
                   inputs, nontriv)
-        # the stored value becomes that value
-        stored = lib.observe(run.ev.get_cell_value, c)
-        ctx.check(key + '#stored', stored, want, tags + ['oracle:stored'],
-                  inputs, nontriv)
+        # the stored value becomes that value (nothing to store if it raises)
+        if want != 'raise:*':
+            stored = lib.observe(run.ev.get_cell_value, c)
+            ctx.check(key + '#stored', stored, want, tags + ['oracle:stored'],
+                      inputs, nontriv)
     else:
         ctx.check(key + '#ret', got, 'blank', ['op:set', 'oracle:set-returns'],
                   inputs, False)
@@ -193,6 +208,8 @@ def plan(tier):
         spec = f()
         ops = alphabet(spec)
         depth = (DEPTH_NAMED if spec.names else DEPTH)[tier]
+        if len(ops) > 9 and not spec.names:
+            depth -= 1            # large alphabets: one level less, unmerged
         plen = min(2, depth)
         shards.append({'model': spec.name, 'mode': 'short', 'plen': plen})
         for prefix in itertools.product(range(len(ops)), repeat=plen):
